@@ -240,6 +240,33 @@ def r07_4(ctx, fx):
            site=fn.site(fn.entry), detail=str([fn.path_sites(p) for _, _, p in bad]), cfg=fx.cfg)
 
 
+def r07_7(ctx, fx):
+    """never before the matching established event: inside TransportManager::next the result of TransportManager::on_connection_closed
+    (the application-level ConnectionClosed) is looked at only where peer and connection id were taken out of a ConnectionClosed event
+    (the close report of the connection task).  The
+    other call sites are rollbacks of connections that were never announced; their result must stay unused."""
+    fn = ctx.fn(fx, "transport::manager::TransportManager::next::{closure#0}", "R07.7")
+    if fn is None:
+        return
+    calls = fn.calls(r"TransportManager::on_connection_closed$")
+    ctx.anchor("R07.7", "next: on_connection_closed calls", len(calls), 3, cfg=fx.cfg)
+    inspected = 0
+    for i, c in enumerate(calls):
+        d = c.dest[0] if c.dest else None
+        looked = [sw for sw in fn.discr_switches() if sw[1] and sw[1][0] == d]
+        flows = d == 0   # `return self.on_connection_closed(..)`
+        if not looked and not flows:
+            continue
+        inspected += 1
+        org = [fn.origin(a) for a in c.args[1:]]
+        ok = len(org) == 2 and all("@ConnectionClosed." in o for o in org)
+        ctx.ob("R07.7", "next/on_connection_closed#%d-result-used-only-for-the-transport's-ConnectionClosed" % i, ok, site=fn.site(c.node), cfg=fx.cfg,
+               detail="peer and connection id must come out of a ConnectionClosed event (the connection task's own close report); a ConnectionClosed handed to the "
+                      "application from a rollback path reports a connection that was never announced as established; argument origins: %s" % org)
+    ctx.ob("R07.7", "next/transport-ConnectionClosed-result-is-forwarded", inspected >= 1, site=fn.site(fn.entry), cfg=fx.cfg,
+           detail="call sites whose result is inspected: %d" % inspected)
+
+
 def run(ctx):
     for cfg in ctx.configs():
         fx = ctx.facts(cfg)
@@ -250,4 +277,5 @@ def run(ctx):
             r07_3(ctx, fx)
             r07_4(ctx, fx)
             r07_6(ctx, fx)
+            r07_7(ctx, fx)
     ctx.assume("cancellation of the connection task (executor shutdown) is not an exit")
